@@ -24,6 +24,28 @@ CLAIMS = {
          "Bounds: 8-command alphabet, prefix 2 (quick) / 3 (thorough), suffix 2; idle time-out is an error value returned by the harness connection."),
  "C19": ("Command lines of arbitrary 7-bit octets (no crash, no recovered panic, one reply, connection survives) and lines around MaxLineLength at three positions under three segmentations through the real limiter, bufio and loop.",
          "Bounds: MaxLineLength = 24 in the limit harness, line lengths max-3..max+4, lines <= 4/5 octets in the garbage harness; 8-bit command octets outside (case-mapping intrinsic)."),
+ "C09": ("AUTH reachability over TLS state x AllowInsecureAuth x backend kind x greeting (plaintext natively validated, TLS states on the TLS stub), server exchanges with base64 of arbitrary octets / '=' / '*' / non-base64 lines, the client's Auth against a scripted peer with arbitrary challenge and response octets, and AUTH after a failed STARTTLS handshake; encoding/base64 executed from source against an independent reference encoder.",
+         "Bounds: 0..2 octets per response/challenge, 0..1 (quick) / 0..2 (thorough) challenge steps. TLS is a stub (contract in DESIGN.md section 2.4)."),
+ "C10": ("STARTTLS on the server from four plaintext states with an injected plaintext command (two octets arbitrary) and on the client against six peer misbehaviours, through NewClientStartTLS and the package-level SendMail; relative to the TLS stub contract.",
+         "Both harnesses need the crypto/tls stub, so there is no native translator validation for C10; counterexamples are confirmed by pinned re-execution of the real SSA in the engine. The TLS protocol itself is outside."),
+ "C11": ("MAIL/RCPT lines: all strings of <= 3/4 symbols over a 15-symbol alphabet in three frames, single-octet mutations (arbitrary 7-bit octet) of seven valid paths, and every parameter with arbitrary short values, classified by an independent narrow reference grammar (valid / definitely invalid / unspecified); parser, parseArgs, the regexp-based xtext decoders and strconv executed from source.",
+         "Bounds: path <= 3/4 symbols, values <= 3 octets; unspecified inputs are not judged; RRVS not encoded (time.Parse)."),
+ "C12": ("The complete configuration space x 9 extension probes through handleGreet and the handlers, compared with an independent capability list; the TLS-active third runs on the TLS stub.",
+         "Exhaustive over the finite space with limits 1000 / 7; other limit values and the RRVS-enabled probe are outside."),
+ "C13": ("LMTP final replies for every recipient list over two addresses, every contract-conforming script of SetStatus calls, return value, panic and early failure, DATA and BDAT, plain and per-recipient sessions, with the delivery goroutine pre-empted at synchronisation points; deadlocks and leaked goroutines are violations.",
+         "Bounds: <= 2 (quick) / 3 (thorough) recipients, <= 1/2 pre-emptions, <= 4/6 free scheduling forks."),
+ "C14": ("xtext round trip on all strings of <= 2/3 7-bit octets and the three address codecs on ONE SYMBOLIC Unicode scalar (a handful of paths decide all 1 112 064 scalar values), encoders, the regexp-driven decoders, strconv and utf8 executed from source.",
+         "The whole option struct's trip is decomposed: client line construction is C15's, server parsing C11's; this check owns codec inversion. RRVS outside (time formatting not encoded)."),
+ "C15": ("Client.Mail/Rcpt/Hello/Verify with one hostile argument of arbitrary octets at a time and a symbolic capability map: at most one CRLF-terminated line or a local error with nothing written; parameters only for advertised extensions; REQUIRETLS/SMTPUTF8 never dropped.",
+         "Bounds: hostile argument <= 2/3 (mail/rcpt) or 3/4 (hello/verify) octets; capability maps: one extension under test, the rest jointly on/off."),
+ "C16": ("Client DATA writer and server composed sequentially: arbitrary bodies (CR only before LF) in three Write calls at arbitrary cut points; the wire octets are served by the real server and the backend must read refNormalize(body) with the same envelope; verdict and double Close.",
+         "Bounds: body <= 4/5 octets, 3 Write calls."),
+ "C17": ("Backend errors from the four callbacks with symbolic reply code, symbolic enhanced code (set/unset/absent) and 1-2 lines of arbitrary text octets: strict reply grammar on the wire, then the same octets through the real client, whose SMTPError must equal the backend's.",
+         "Bounds: text lines <= 2/3 octets, <= 2 lines; control octets in backend messages outside."),
+ "C18": ("LMTP client against a scripted peer over 1..2/3 consecutive transactions with arbitrary accept/refuse patterns and verdicts, with and without a status callback; the read position of the scripted connection shows whether Close consumed exactly this transaction's replies.",
+         "Bounds: <= 2 recipients per transaction, <= 2 (quick) / 3 (thorough) transactions."),
+ "C20": ("Serve over arbitrary Accept result sequences followed by Close or Shutdown on the engine's cooperative scheduler (deadlock = all goroutines blocked, leak = goroutines alive at the end), and three connection scenarios under a vector-clock happens-before monitor over go-smtp's own loads and stores; unlisted races are additionally looked for with the Go race detector on the natively compiled harness.",
+         "Bounds: scripts <= 3/5, <= 1/2 pre-emptions at synchronisation operations, <= 3/5 free scheduling forks. This is a bounded check of the happens-before discipline on explored schedules, not a race-freedom proof; five races between Server.Close and the handlers are listed known findings."),
 }
 NA = {}
 
